@@ -5,7 +5,7 @@
 # applied to the /repo copy, the copied check runs with VERIF_REPO pointing at it, then everything is removed.
 # Prints the VIOLATION / KNOWN-FINDING / BROKEN lines and the summary line; exit status = the check's.
 patch=$(readlink -f "$1"); prop=$2; tier=${3:-quick}
-here=$(cd "$(dirname "$0")/.." && pwd)
+here=${SEEDTEST_SRC:-$(cd "$(dirname "$0")/.." && pwd)}   # SEEDTEST_SRC: a built snapshot of /verif to copy from
 work=$(mktemp -d /tmp/seedtest.XXXXXX)
 trap 'rm -rf "$work"' EXIT
 rsync -a --exclude .git --exclude .cache --exclude evidence/replay --exclude coq/cases "$here/" "$work/verif/" 2>/dev/null
